@@ -394,6 +394,19 @@ def rotating_predicate(ck, fn, g, rot_site, plain_site, size_decl, opt_decl, bas
                 sample = 1 if vals[0] else 0
                 # the documented trigger is "size > 0"; evaluate the comparison for a representative positive / zero size
                 return bool({">": sample > k, ">=": sample >= k, "!=": sample != k, "<=": sample <= k, "<": sample < k, "==": sample == k}[n["op"]])
+            if n.get("k") == "call" and n.get("op") == "&" and len(n.get("args", [])) == 2:
+                # mask test: options & (A | B)
+                a0, a1 = skip_copies(n["args"][0]), skip_copies(n["args"][1])
+                for o, m in ((a0, a1), (a1, a0)):
+                    if is_ref_to(o, opt_decl):
+                        mask = m.get("cv") if isinstance(m, dict) and "cv" in m else const_int(m)
+                        if mask is not None:
+                            byname = {nm: v for v, nm in ev.items()}
+                            cur = (byname.get("RotationOnStartup", 0) if vals[1] else 0) | (byname.get("RotationDaily", 0) if vals[2] else 0)
+                            if cur & mask:
+                                return True
+                            other = mask & ~(byname.get("RotationOnStartup", 0) | byname.get("RotationDaily", 0))
+                            return None if other else False     # a bit outside the documented triggers decides: not a function of the table's inputs
             if is_call(n, "QFlags::testFlag") and is_ref_to(skip_copies(n).get("obj"), opt_decl):
                 nm = ev.get(const_int(skip_copies(n)["args"][0]))
                 if nm == "RotationOnStartup":
